@@ -1,7 +1,7 @@
 """C16 — an octet string's content is the concatenation of its primitive segments"""
 from common import *
 
-THEOREMS = ['prim_accept_iff', 'prim_reject', 'prim_views', 'cons_der_reject', 'views_eq_concat', 'octets_eq_osContent', 'len_eq_sum', 'new_inv_prim', 'new_inv_cons', 'request_inv', 'advance_inv', 'request_all', 'write_der_ok', 'write_ber_cons', 'reencode_der_wellformed', 'reencode_ber_wellformed_partial', 'reencode_ber_d12', 'capture_run0', 'cons_cer_accept_iff', 'cons_cer_reject', 'cons_cer_accept_iff_spec', 'cons_cer_views', 'cons_accept_captures_consumed', 'Bcder.Props.C16b.runFilter_ber', 'Bcder.Props.C16b.berLoop_def', 'Bcder.Props.C16b.berLoop_indef', 'Bcder.Props.C16b.ber_def_accept_iff', 'Bcder.Props.C16b.ber_def_accept_iff_spec', 'Bcder.Props.C16b.ber_indef_accept_iff', 'Bcder.Props.C16b.ber_indef_accept_iff_spec', 'Bcder.Props.C16b.ber_indef_captured', 'Bcder.Props.C16b.ber_accept_views', 'Bcder.Props.C16b.ber_reject', 'Bcder.Props.C16b.fromContent_nopanic', 'Bcder.Props.C16b.ber_def_reject_foreign', 'Bcder.Props.C16b.ber_indef_reject_foreign', 'Bcder.Props.C16b.ber_def_reject_malformed']
+THEOREMS = ['prim_accept_iff', 'prim_reject', 'prim_views', 'cons_der_reject', 'views_eq_concat', 'octets_eq_osContent', 'len_eq_sum', 'new_inv_prim', 'new_inv_cons', 'request_inv', 'advance_inv', 'request_all', 'write_der_ok', 'write_ber_cons', 'reencode_der_wellformed', 'reencode_ber_wellformed', 'reencode_ber_d12_shape', 'capture_run0', 'cons_cer_accept_iff', 'cons_cer_reject', 'cons_cer_accept_iff_spec', 'cons_cer_views', 'cons_accept_captures_consumed', 'Bcder.Props.C16b.runFilter_ber', 'Bcder.Props.C16b.berLoop_def', 'Bcder.Props.C16b.berLoop_indef', 'Bcder.Props.C16b.ber_def_accept_iff', 'Bcder.Props.C16b.ber_def_accept_iff_spec', 'Bcder.Props.C16b.ber_indef_accept_iff', 'Bcder.Props.C16b.ber_indef_accept_iff_spec', 'Bcder.Props.C16b.ber_indef_captured', 'Bcder.Props.C16b.ber_accept_views', 'Bcder.Props.C16b.ber_accept_reencode', 'Bcder.Props.C16b.ber_reject', 'Bcder.Props.C16b.fromContent_nopanic', 'Bcder.Props.C16b.ber_def_reject_foreign', 'Bcder.Props.C16b.ber_indef_reject_foreign', 'Bcder.Props.C16b.ber_def_reject_malformed']
 EXTRA_MODULES = ['C16b']
 RULE = ("os.views <mode> <encoding>: forms of depth <= 4 over contents of length 0-12, definite and indefinite at every level, empty segments and "
         "empty constructed values, foreign tags at every position, mutations; CER: segment-length vectors over {0,1,999,1000,1001} of length <= 3 "
@@ -9,7 +9,7 @@ RULE = ("os.views <mode> <encoding>: forms of depth <= 4 over contents of length
         "re-encoding (os.enc). non-trivial = accepted.")
 EXHAUSTIVE = {"quick": False, "thorough": False}
 EXHAUSTIVE_NOTE = {"quick": "all CER segment-length vectors over {0,1,999,1000,1001} of length <= 3", "thorough": "length <= 4"}
-ASSUMPTIONS = ["BER re-encoding of a value whose outermost form is indefinite is the recorded known finding D12"]
+ASSUMPTIONS = []
 
 def has_spec(r):
     return r.startswith("os.views")
@@ -105,8 +105,6 @@ def relational(reqs, answers):
         if a_back is None or not a_back.startswith("ok") or content(a_back) != content(a_orig):
             f = {"request": r, "impl": "%s ; read back: %s" % (idx.get(r), a_back),
                  "spec": "re-encoding yields a well-formed %s encoding of the same content (%s)" % (em.upper(), content(a_orig))}
-            if em == "ber" and e[:2] == bytes([0x24, 0x80]):
-                f["sig"] = "D12"   # capture of an indefinite value's content includes its end-of-contents octets
             fails.append(f)
     for r in REENC:
         a = idx.get(r)
@@ -126,5 +124,5 @@ def nontrivial(req, ans):
     return ans.startswith("ok")
 
 LEVEL = "proof"
-LEVEL_TEXT = ("Lean 4 theorems for ALL inputs, unbounded size and nesting. Primitive form: accepted exactly when not CER or at most 1000 octets, all views present the content (prim_accept_iff, prim_views); constructed in DER rejected (cons_der_reject). Views: for every captured content that parses (BER rules) into OCTET STRING values nested to any depth - incl. the shape with the outer end-of-contents in the capture - the segment iterator yields exactly the primitive leaves in encoding order, octets/to_bytes their concatenation, len its length, is_empty accordingly, without panic or fuel exhaustion (views_eq_concat, octets_eq_osContent, len_eq_sum). As a decoding source: current ++ segments of the remainder is invariant and equals the unconsumed suffix of the content; request never fails, grants >= len whenever that much remains, advance drops exactly n (new_inv_*, request_inv, advance_inv, request_all). Re-encoding: DER writes identifier, minimal length, concatenated content and that parses as one primitive value with the same content; BER keeps the segmentation (write_der_ok, reencode_der_wellformed, write_ber_cons, reencode_ber_wellformed_partial - PARTIAL because the D12 shape re-encodes malformed: kernel-checked reencode_ber_d12). BER constructed acceptance is characterised completely too (Props/C16b.lean, on the skip-machine theorems of C10 and the capture closed form): in a definite or indefinite BER parent the value is accepted exactly when the content parses into values that are OCTET STRING at EVERY depth (ber_def_accept_iff_spec, ber_indef_accept_iff_spec), a foreign tag at any depth or malformed nesting is rejected with a content error and never a panic (ber_reject, *_reject_foreign, *_reject_malformed), and every accepted value satisfies the hypothesis of the view theorems, so all its views present the concatenation of the primitive segments (ber_accept_views). CER constructed acceptance is characterised completely (cons_cer_accept_iff, cons_cer_accept_iff_spec: segments <= 1000 with only the last short, = the reference acceptance predicate; every failure a content error). Correspondence + oracles: forms of depth <= 4 in all modes, mutated forms, CER segment vectors over {0,1,999,1000,1001}, use as a source behind every script, re-encoding in BER and DER read back by the real decoder.")
-LEVEL_NOTE = ("Trusted: Lean 4.33 kernel; axioms propext, Classical.choice, Quot.sound only; the hand-written model (lean/Bcder/Model/Octet.lean) tied to /repo on every run by differential correspondence; reference osContent / osSegments / osAccept in lean/Bcder/Spec/Tlv.lean. NOT proved: that the BER skip loop of take_constructed_ber accepts exactly the OCTET-STRING-only trees (reduced in the file to C10's frame-free statements by capture_run0; covered by the correspondence check with foreign tags at every depth); cons_accept_captures_consumed (from C11) shows an accepted constructed value holds exactly the octets advanced over. Known finding D12 (BER re-encoding of a value decoded from an indefinite outer form) is reported by this check as KNOWN-FINDING.")
+LEVEL_TEXT = ("Lean 4 theorems for ALL inputs, unbounded size and nesting. Primitive form: accepted exactly when not CER or at most 1000 octets, all views present the content (prim_accept_iff, prim_views); constructed in DER rejected (cons_der_reject). Views: for every captured content that parses (BER rules) into OCTET STRING values nested to any depth - incl. the pre-repair shape with the outer end-of-contents in the capture - the segment iterator yields exactly the primitive leaves in encoding order, octets/to_bytes their concatenation, len its length, is_empty accordingly, without panic or fuel exhaustion (views_eq_concat, octets_eq_osContent, len_eq_sum). As a decoding source: current ++ segments of the remainder is invariant and equals the unconsumed suffix of the content; request never fails, grants >= len whenever that much remains, advance drops exactly n (new_inv_*, request_inv, advance_inv, request_all). Re-encoding: DER writes identifier, minimal length, concatenated content and that parses as one primitive value with the same content; BER keeps the segmentation (write_der_ok, reencode_der_wellformed, write_ber_cons, reencode_ber_wellformed; C16b.ber_accept_reencode: EVERY constructed value accepted in BER - definite or indefinite outer form - holds captured octets that parse as a sequence of values, never with the end-of-contents marker, and re-encodes in BER as one well-formed definite-length constructed value with the same kids and the same content; reencode_ber_d12_shape is the kernel-checked witness of what the repaired defect D12 produced). BER constructed acceptance is characterised completely too (Props/C16b.lean, on the skip-machine theorems of C10 and the capture closed form): in a definite or indefinite BER parent the value is accepted exactly when the content parses into values that are OCTET STRING at EVERY depth (ber_def_accept_iff_spec, ber_indef_accept_iff_spec), a foreign tag at any depth or malformed nesting is rejected with a content error and never a panic (ber_reject, *_reject_foreign, *_reject_malformed), and every accepted value satisfies the hypothesis of the view theorems, so all its views present the concatenation of the primitive segments (ber_accept_views). CER constructed acceptance is characterised completely (cons_cer_accept_iff, cons_cer_accept_iff_spec: segments <= 1000 with only the last short, = the reference acceptance predicate; every failure a content error). Correspondence + oracles: forms of depth <= 4 in all modes, mutated forms, CER segment vectors over {0,1,999,1000,1001}, use as a source behind every script, re-encoding in BER and DER read back by the real decoder.")
+LEVEL_NOTE = ("Trusted: Lean 4.33 kernel; axioms propext, Classical.choice, Quot.sound only; the hand-written model (lean/Bcder/Model/Octet.lean) tied to /repo on every run by differential correspondence; reference osContent / osSegments / osAccept in lean/Bcder/Spec/Tlv.lean. NOT proved: that the BER skip loop of take_constructed_ber accepts exactly the OCTET-STRING-only trees (reduced in the file to C10's frame-free statements by capture_run0; covered by the correspondence check with foreign tags at every depth); cons_accept_captures_consumed (from C11) shows an accepted constructed value holds exactly the octets advanced over. The former known finding D12 is repaired (fix: commit in /repo); its witnesses are corpus cases.")
